@@ -44,6 +44,12 @@
 (*                 SampledData)                                            *)
 (*  Bins           .bins[item]   -> _make_bin_slice, Binning.__getitem__   *)
 (*  Patches        .patches[item]-> _make_patch_slice                      *)
+(*                 item: a Python int (sel.t = "int"), a numpy integer     *)
+(*                 scalar (sel.t = "npint": np.int64 / int32 / intp / an   *)
+(*                 element of np.arange, e.g. the result of np.argmax) or  *)
+(*                 a slice.  The TYPE of an index never matters: "npint"   *)
+(*                 selects what "int" selects and is rejected when "int"   *)
+(*                 is rejected.                                            *)
 (*  IterBins/IterPatches  iteration over the Indexer (utils/abc.py)        *)
 (*  PatchSum       sample_patch_sum (BinwisePatchwiseArray,                *)
 (*                 PatchedSumWeights.get_array, NormalisedCounts)          *)
@@ -77,10 +83,18 @@
 (*  "AddPassesClosed"  SampledData.__add__/__sub__ pass closed=self.closed *)
 (*  "AddDropsMembers"  CorrFunc.__add__ iterates over self's members only  *)
 (*  "SwNdimChain"      PatchedSumWeights.__init__: a != b != 2             *)
+(*  "NumpyIndexOnCounts" _make_bin_slice / _make_patch_slice of            *)
+(*                     PatchedCounts and PatchedSumWeights (hence of       *)
+(*                     NormalisedCounts, CorrFunc) restore the selected    *)
+(*                     axis only for isinstance(item, int): a numpy        *)
+(*                     integer index is rejected (ValueError / IndexError) *)
 (* Hypothetical deviations (not in the code; they show that the C04 laws   *)
 (* are not vacuous and are replayed like the others):                      *)
 (*  "LsMixedTwice"        Landy-Szalay with RD counted twice, DR ignored   *)
 (*  "HistNormBeforeWidth" histogram norm taken before the width correction *)
+(*  "AddIgnoresWeights"   NormalisedCounts.__add__ checks binning and patch *)
+(*                        number only: counts normalised by different sums *)
+(*                        of weights are added (left normalisation kept)   *)
 (*  "NcArrayPairwiseNorm" NormalisedCounts.get_array divides by the        *)
 (*                        patch-pair weight products instead of the total  *)
 (***************************************************************************)
@@ -207,13 +221,15 @@ WithArgs(r, args) == [r EXCEPT !.args = args]
 (* index / slice selections: Python semantics of x[i] and slice.indices    *)
 NoSel == [t |-> "none", lo |-> 0, hi |-> 0, st |-> 0]
 IntSel(i) == [t |-> "int", lo |-> i, hi |-> 0, st |-> 0]
+NpSel(i) == [t |-> "npint", lo |-> i, hi |-> 0, st |-> 0]     \* numpy integer scalar
+IsIdx(sel) == sel.t \in {"int", "npint"}
 Slice(lo, hi, st) == [t |-> "slice", lo |-> lo, hi |-> hi, st |-> st]
 
 Sels(n) ==
     IF SelSet = "small"
     THEN {IntSel(0), IntSel(-1), IntSel(n), Slice(NONE, NONE, NONE), Slice(1, NONE, NONE),
-          Slice(NONE, -1, NONE)}
-    ELSE {IntSel(i) : i \in (-n - 1)..n}
+          Slice(NONE, -1, NONE), NpSel(0), NpSel(-1), NpSel(n)}
+    ELSE {IntSel(i) : i \in (-n - 1)..n} \cup {NpSel(i) : i \in (-n - 1)..n}
          \cup {Slice(NONE, NONE, NONE), Slice(0, 1, NONE), Slice(1, NONE, NONE),
                Slice(NONE, -1, NONE), Slice(-1, NONE, NONE), Slice(NONE, NONE, 2),
                Slice(1, n + 2, NONE), Slice(1, 1, NONE), Slice(0, n, NONE),
@@ -223,7 +239,7 @@ IntInRange(sel, n) == -n <= sel.lo /\ sel.lo < n
 
 (* selected positions, 1-based *)
 SelIdx(sel, n) ==
-    IF sel.t = "int"
+    IF IsIdx(sel)
     THEN <<(IF sel.lo < 0 THEN sel.lo + n ELSE sel.lo) + 1>>
     ELSE LET start == IF sel.lo = NONE THEN 0
                       ELSE IF sel.lo < 0 THEN Max(sel.lo + n, 0) ELSE Min(sel.lo, n)
@@ -265,15 +281,19 @@ SelectPatches(a, idx) ==
 
 (* .bins[item] *)
 BinsOf(a, sel) ==
-    IF sel.t = "int" /\ ~IntInRange(sel, NB(a)) THEN RRej({"IndexError"})
+    IF IsIdx(sel) /\ ~IntInRange(sel, NB(a)) THEN RRej({"IndexError"})
+    ELSE IF sel.t = "npint" /\ a.k \in PatchLevels /\ "NumpyIndexOnCounts" \in Deviations
+         THEN RRej({"ValueError", "IndexError"})
     ELSE LET idx == SelIdx(sel, NB(a)) IN
          IF Len(idx) = 0 THEN ROpen(Null, {"IndexError", "ValueError"})  \* no empty Binning exists
          ELSE RVal(SelectBins(a, idx))
 
 (* .patches[item] *)
 PatchesOf(a, sel) ==
-    IF sel.t = "int" /\ ~IntInRange(sel, NP(a)) THEN RRej({"IndexError"})
-    ELSE IF sel.t = "int" /\ a.k \in CountLevels /\ "FancyPatchIndex" \in Deviations
+    IF IsIdx(sel) /\ ~IntInRange(sel, NP(a)) THEN RRej({"IndexError"})
+    ELSE IF sel.t = "npint" /\ "NumpyIndexOnCounts" \in Deviations
+         THEN RRej({"ValueError", "IndexError"})
+    ELSE IF IsIdx(sel) /\ a.k \in CountLevels /\ "FancyPatchIndex" \in Deviations
          THEN RRej({"ValueError"})
     ELSE LET idx == SelIdx(sel, NP(a)) IN
          IF Len(idx) = 0 THEN ROpen(SelectPatches(a, idx), {"IndexError", "ValueError"})
@@ -372,8 +392,9 @@ AddOf(a, b, sign) ==
                    /\ SameWeights(a, b)
                THEN RVal(Combine(a, b, 1, DOMAIN a.parts))
                ELSE RRej({"TypeError", "ValueError"}))
-    ELSE IF ~SameWeights(a, b)
-         THEN ROpen(Combine(a, b, 1, DOMAIN a.parts), {"ValueError"})  \* library rejects
+    ELSE IF ~SameWeights(a, b)   \* "'sum_weights' must be identical for operation": pair counts that are
+         THEN (IF "AddIgnoresWeights" \in Deviations                \* normalised differently cannot be added
+               THEN RVal(Combine(a, b, 1, DOMAIN a.parts)) ELSE RRej({"ValueError"}))
     ELSE RVal(Combine(a, b, 1, DOMAIN a.parts))
 
 (* scalars: cls = Python class of the operand, value num/den *)
@@ -562,6 +583,15 @@ VariantOf(a, var) ==
             IF a.k \in DataLevels THEN [a EXCEPT !.samples = <<@[1]>>]
             ELSE SelectPatches(a, <<1>>)
       [] var = "sw"     -> [a EXCEPT !.parts[FirstM(a)].sw1[1][1] = @ + 1]
+      [] var = "othersw" ->  \* another measurement on the same bins and patches: every member has
+                             \* other pair counts AND other sums of weights
+            [a EXCEPT !.parts = [m \in DOMAIN a.parts |->
+                [cnt |-> [b \in 1..NB(a) |-> [i \in 1..NP(a) |-> [j \in 1..NP(a) |->
+                            a.parts[m].cnt[b][i][j]
+                            + (IF a.auto /\ j < i THEN 0 ELSE a.den * ((b + i + 2 * j + MI(m)) % 3))]]],
+                 sw1 |-> [b \in 1..NB(a) |-> [i \in 1..NP(a) |-> a.parts[m].sw1[b][i] + 1 + ((b + i) % 2)]],
+                 sw2 |-> [b \in 1..NB(a) |-> [i \in 1..NP(a) |->
+                            a.parts[m].sw2[b][i] + (IF a.auto THEN 1 + ((b + i) % 2) ELSE (i % 2))]]]]]
       [] var = "mem+"   ->
             LET miss == {"dr", "rd", "rr"} \ DOMAIN a.parts
                 new  == CHOOSE m \in miss : \A o \in miss : MI(m) <= MI(o)
@@ -578,7 +608,7 @@ VariantOf(a, var) ==
 VariantsFor(a) ==
     {"copy", "counts", "edges", "nbins", "npatch", "type", "int1", "pynone"}
     \cup (IF NP(a) # 1 THEN {"npatch1"} ELSE {})
-    \cup (IF a.k \in {"NC", "CF"} THEN {"sw"} ELSE {})
+    \cup (IF a.k \in {"NC", "CF"} THEN {"sw", "othersw"} ELSE {})
     \cup (IF a.k \in DataLevels THEN {"samples"} ELSE {})
     \cup (IF a.k = "CF" /\ (DOMAIN a.parts) # {"dd", "dr", "rd", "rr"} THEN {"mem+"} ELSE {})
     \cup (IF a.k = "CF" /\ Cardinality(DOMAIN a.parts) > 2 THEN {"mem-"} ELSE {})
@@ -650,6 +680,11 @@ LeftAdd(i, left, j) ==
     /\ (j # 0 => left = 0)
     /\ Step(HEntry("RAdd", i, j, "", IntSel(left), NoScalar, FALSE),
             IF j = 0 THEN RAddOf(ws[i], left) ELSE AddOf(ws[i], ws[j], 1))
+(* sum([x, y]) with a fresh second operand y (a variant of x) *)
+SumVar(i, var) ==
+    /\ Focused(i, i) /\ ws[i].k \in {"PC", "NC"} /\ var \in VariantsFor(ws[i]) \cap {"copy", "counts", "sw", "othersw", "npatch"}
+    /\ Step(HEntry("RAdd", i, 0, var, IntSel(0), NoScalar, FALSE),
+            WithArgs(AddOf(ws[i], VariantOf(ws[i], var), 1), <<VariantOf(ws[i], var)>>))
 Mul(i, sc) ==
     /\ Focused(i, i) /\ ws[i].k \in CountLevels
     /\ Step(HEntry("Mul", i, 0, "", NoSel, sc, FALSE), MulOf(ws[i], sc))
@@ -735,19 +770,20 @@ Construct(cls) ==
 
 SomeAdd       == \E i \in Idx, j \in Idx : Add(i, j)
 SomeSub       == \E i \in Idx, j \in Idx : Sub(i, j)
-SomeAddVar    == \E i \in Idx, var \in {"copy", "counts", "edges", "nbins", "npatch", "npatch1", "sw",
+SomeAddVar    == \E i \in Idx, var \in {"copy", "counts", "edges", "nbins", "npatch", "npatch1", "sw", "othersw",
                                           "mem+", "mem-", "type", "int1", "pynone", "samples"},
                     rev \in BOOLEAN : AddVar(i, var, rev)
 SomeSubVar    == \E i \in Idx, var \in {"copy", "counts", "edges", "nbins", "npatch", "npatch1",
                                           "type", "int1", "pynone", "samples"} : SubVar(i, var)
-SomeRAdd      == \E i \in Idx, left \in {0, 1}, j \in {0} \cup Idx : LeftAdd(i, left, j)
+SomeRAdd      == \/ \E i \in Idx, left \in {0, 1}, j \in {0} \cup Idx : LeftAdd(i, left, j)
+                 \/ \E i \in Idx, var \in {"copy", "counts", "sw", "othersw", "npatch"} : SumVar(i, var)
 SomeMul       == \E i \in Idx, sc \in Scalars : Mul(i, sc)
 SomeEq        == \E i \in Idx, j \in Idx : Eq(i, j)
-SomeEqVar     == \E i \in Idx, var \in {"copy", "counts", "edges", "nbins", "npatch", "npatch1", "sw",
+SomeEqVar     == \E i \in Idx, var \in {"copy", "counts", "edges", "nbins", "npatch", "npatch1", "sw", "othersw",
                                          "mem+", "mem-", "type", "int1", "pynone", "samples",
                                          "closed", "auto"} : EqVar(i, var)
 SomeIsCompat  == \E i \in Idx, j \in Idx, req \in BOOLEAN : IsCompat(i, j, req)
-SomeIsCompatVar == \E i \in Idx, var \in {"copy", "counts", "edges", "nbins", "npatch", "npatch1", "sw",
+SomeIsCompatVar == \E i \in Idx, var \in {"copy", "counts", "edges", "nbins", "npatch", "npatch1", "sw", "othersw",
                                             "mem+", "mem-", "type", "samples"},
                       req \in BOOLEAN : IsCompatVar(i, var, req)
 SomeBins      == \E i \in Idx : \E sel \in Sels(NB(ws[i])) : Bins(i, sel)
@@ -785,7 +821,7 @@ All == {ws[i] : i \in Idx}
 (* every container is examined once: in the state in which it is created *)
 Containers == IF hist = <<>> \/ res.out \in {"val", "alts"} THEN {ws[Len(ws)]} ELSE {}
 CountC == {a \in Containers : a.k \in CountLevels}
-StructVariants == {"copy", "counts", "edges", "nbins", "npatch", "npatch1", "sw", "mem+", "mem-", "samples"}
+StructVariants == {"copy", "counts", "edges", "nbins", "npatch", "npatch1", "sw", "othersw", "mem+", "mem-", "samples"}
 Partners(a) == All \cup {VariantOf(a, var) : var \in VariantsFor(a) \cap StructVariants}
 Selectable(a) == {sel \in Sels(NB(a)) : BinsOf(a, sel).out = "val"}
 PSelectable(a) == {sel \in Sels(NP(a)) : PatchesOf(a, sel).out = "val"}
@@ -810,8 +846,10 @@ AddAddsCounts ==
               /\ \A m \in DOMAIN r.v.parts : \A bb \in 1..NB(a) : \A i \in 1..NP(a) : \A j \in 1..NP(a) :
                     r.v.parts[m].cnt[bb][i][j] * a.den * b.den =
                     r.v.den * (a.parts[m].cnt[bb][i][j] * b.den + b.parts[m].cnt[bb][i][j] * a.den)
+              /\ SameWeights(a, b)
               /\ AddOf(b, a, 1).out = "val" /\ StructEq(AddOf(b, a, 1).v, r.v))
         /\ (a.k = b.k /\ (~SameBinning(a, b) \/ NP(a) # NP(b)) => r.out = "rej")
+        /\ (a.k = b.k /\ DOMAIN a.parts = DOMAIN b.parts /\ ~SameWeights(a, b) => r.out = "rej")
 
 (* k * x scales the counts; the estimate of a CorrFunc is unchanged (k # 0) *)
 MulScales ==
@@ -927,7 +965,7 @@ BinaryValidity(a, b) ==
     IF MixedData(a, b) THEN "open"
     ELSE IF ~IsContainer(b) \/ ~SameType(a, b) \/ a.k = "SW" THEN "invalid"
     ELSE IF ~SameBinning(a, b) \/ NP(a) # NP(b) \/ DOMAIN a.parts # DOMAIN b.parts THEN "invalid"
-    ELSE IF ~SameWeights(a, b) THEN "open"
+    ELSE IF ~SameWeights(a, b) THEN "invalid"
     ELSE "valid"
 CompatValidity(a, b, req) ==
     IF MixedData(a, b) THEN "open"
@@ -935,7 +973,7 @@ CompatValidity(a, b, req) ==
     ELSE IF IsContainer(b) /\ SameType(a, b) /\ SameBinning(a, b) /\ NP(a) = NP(b) THEN "valid"
     ELSE "invalid"
 SelValidity(sel, n) ==
-    IF sel.t = "int" THEN (IF IntInRange(sel, n) THEN "valid" ELSE "invalid")
+    IF IsIdx(sel) THEN (IF IntInRange(sel, n) THEN "valid" ELSE "invalid")
     ELSE IF Len(SelIdx(sel, n)) = 0 THEN "open" ELSE "valid"
 SampleValidity(M) == IF "rr" \in M /\ "dr" \notin M THEN "open" ELSE "valid"
 AutoValidity(mem) == IF mem = {} THEN "valid" ELSE SampleValidity({"dd"} \cup mem)
@@ -944,7 +982,8 @@ Validity(h) ==
     LET a == ws[h.i] IN
     CASE h.op \in {"Add", "Sub"} -> BinaryValidity(a, ws[h.j])
       [] h.op \in {"AddVar", "SubVar"} -> BinaryValidity(a, VariantOf(a, h.var))
-      [] h.op = "RAdd" -> IF h.j # 0 THEN BinaryValidity(a, ws[h.j])
+      [] h.op = "RAdd" -> IF h.var # "" THEN BinaryValidity(a, VariantOf(a, h.var))
+                          ELSE IF h.j # 0 THEN BinaryValidity(a, ws[h.j])
                           ELSE IF h.sel.lo = 0 THEN "valid" ELSE "invalid"
       [] h.op = "Mul" -> IF h.sc.cls \in ValidScalarClasses THEN "valid" ELSE "invalid"
       [] h.op \in {"IterBins", "IterPatches", "PatchSum", "GetArray"} -> "valid"
